@@ -99,7 +99,7 @@ type BigVal struct {
 }
 
 type GroupFacet struct {
-	Mod     *smt.Term        // modulus term identity
+	Mod     *smt.Term            // modulus term identity
 	Exps    map[string]*smt.Term // atom name -> Real exponent
 	Reduced bool
 }
